@@ -8,7 +8,8 @@ import re
 
 from ..cfg import cfg_of
 from ..model import AnalysisError, call_name, calls_in, dotted, norm, walk_no_nested
-from .. import inline, rules, sfdl
+from .. import conds as cnd
+from .. import inline, normal, rules, sfdl
 from . import c03
 
 META = {
@@ -178,17 +179,16 @@ def check_roles(ctx):
     repo = ctx.repo
     f = repo.method("HsmsSettings", "create_connection", inherited=False)
     ctx.touch(f)
-    cfg = cfg_of(f.node)
+    cfg = cfg_of(normal.normalised(ctx, f))
     rets = {}
     for n in cfg.real_nodes():
         if isinstance(n.ast, ast.Return) and isinstance(n.ast.value, ast.Call):
-            conds = [(norm(t), v) for t, v in cfg.dominating_conditions(n)]
-            rets[(call_name(n.ast.value) or "").split(".")[-1]] = conds
+            rets[(call_name(n.ast.value) or "").split(".")[-1]] = sorted(cnd.facts(cfg, n))
     ok = rets.get("TcpClientConnection") == [("self.connect_mode == HsmsConnectMode.ACTIVE", True)] and rets.get("TcpServerConnection") in ([("self.connect_mode == HsmsConnectMode.ACTIVE", False)], [("self.connect_mode == HsmsConnectMode.PASSIVE", True)])
     ctx.ob("C20.T3", f.qualname, ok, "ACTIVE connects out (client), PASSIVE listens (server)" if ok else f"connect-role mapping is {rets}: two endpoints configured ACTIVE/PASSIVE would both listen or both connect", where=f.where)
     ia = repo.method("HsmsSettings", "is_active", inherited=False)
     r = [s for s in rules.func_stmts(ia.node) if isinstance(s, ast.Return)]
-    ok = len(r) == 1 and norm(r[0].value) == "self.connect_mode == HsmsConnectMode.ACTIVE"
+    ok = len(r) == 1 and rules.expand(ia.node, r[0].value) == "self.connect_mode == HsmsConnectMode.ACTIVE"
     ctx.ob("C20.T3", ia.qualname, ok, "only the active side starts the select procedure" if ok else f"is_active returns {norm(r[0].value) if r else None}", where=ia.where)
     en = repo.method("GemHandler", "enable", inherited=False)
     ctx.touch(en)
